@@ -326,17 +326,20 @@ pub fn parse_and_bind<R: FsModuleResolver>(
         let renamed = unresolved.renamed;
         let js_word = unresolved.name.clone();
         let k = unresolved.name.to_string();
+        // `export { X }` exports every local meaning of X: a type alias or interface AND a value of the same name, and an
+        // enum both as a type and as a value
+        let mut found_local = false;
         if let Some(ts_type) = locals.content.type_aliases.get(&k) {
             symbol_exports.insert_type(
                 renamed.to_string(),
                 Rc::new(SymbolExport::TsType {
                     decl: ts_type.clone(),
                     original_file: file_name.clone(),
-                    name: k,
+                    name: k.clone(),
                     span: ts_type.span,
                 }),
             );
-            continue;
+            found_local = true;
         }
 
         if let Some(enum_) = locals.content.enums.get(&k) {
@@ -347,7 +350,14 @@ pub fn parse_and_bind<R: FsModuleResolver>(
                     original_file: file_name.clone(),
                 }),
             );
-            continue;
+            symbol_exports.insert_value(
+                renamed.to_string(),
+                Rc::new(SymbolExport::TsEnumDecl {
+                    decl: enum_.clone(),
+                    original_file: file_name.clone(),
+                }),
+            );
+            found_local = true;
         }
 
         if let Some(intf) = locals.content.interfaces.get(&k) {
@@ -359,7 +369,7 @@ pub fn parse_and_bind<R: FsModuleResolver>(
                     span: intf.span,
                 }),
             );
-            continue;
+            found_local = true;
         }
 
         if let Some(v) = locals.content.exprs.get(&k) {
@@ -372,10 +382,8 @@ pub fn parse_and_bind<R: FsModuleResolver>(
                     original_file: file_name.clone(),
                 }),
             );
-            continue;
-        }
-
-        if let Some(v) = locals.content.exprs_decls.get(&k) {
+            found_local = true;
+        } else if let Some(v) = locals.content.exprs_decls.get(&k) {
             symbol_exports.insert_value(
                 renamed.to_string(),
                 Rc::new(SymbolExport::ExprDecl {
@@ -385,6 +393,9 @@ pub fn parse_and_bind<R: FsModuleResolver>(
                     original_file: file_name.clone(),
                 }),
             );
+            found_local = true;
+        }
+        if found_local {
             continue;
         }
 
